@@ -216,6 +216,9 @@ def shape_valid(item, ob):
     ob.absorb_engine(E)
 
 def run_shape(item, ob):
+    if item[0] == 'pair':
+        from props import equiv
+        equiv.MIR = MIR; return equiv.run_item(item, ob)
     fam, payload = item
     {'keys': shape_keys, 'valid': shape_valid, 'dictkey': shape_dictkey}[fam](payload, ob)
 
@@ -235,6 +238,8 @@ def main(tier, seed, t0):
     for kind in ('null', 'num', 'list', 'vector', 'list_of_func', 'func', 'instance', 'stream', 'list_of_stream'): items.append(('valid', kind))
     for n, lv in ((1, ('IntSmall',)), (2, ('IntSmall', 'Float')), (2, ('Rational', 'IntBig')), (3, ('IntSmall', 'IntSmall', 'IntSmall'))): items.append(('dictkey', (n, lv)))
     rnd.shuffle(items)
+    from props import equiv
+    equiv.MIR = MIR; equiv.preparse('C09'); items += equiv.items_for('C09')          # statement-level equivalences (props/equiv.py family C09)
     merged, per = pmap(run_shape, items, tier)
     return finish(PROP, tier, seed, merged, t0, th=th,
         kernels=['core.rs: total_eq_of_keys, total_eq_of_key_seqs, total_hash_of_key, check_if_valid_key', 'nnum.rs: NNum::{eq, is_nan, total_eq, total_hash}, consistent_hash_f64, to_nint_if_int', 'nint.rs: NInt::{eq, hash}'],
